@@ -13,6 +13,7 @@ import (
 	"sort"
 	"strings"
 	"sync"
+	"testing"
 	"time"
 
 	"github.com/nspcc-dev/neo-go/pkg/util"
@@ -260,6 +261,16 @@ func buildTemplate() {
 	}
 	mustNoErr(os.WriteFile(f.path(pathDump), dump, 0o644), "write dump")
 	mustNoErr(os.WriteFile(f.path(pathGarbage), []byte("this is not a dump"), 0o644), "write garbage")
+}
+
+// TestMain removes the template directory (per-fixture directories are removed
+// by close()).
+func TestMain(m *testing.M) {
+	code := m.Run()
+	if templateDir != "" {
+		_ = os.RemoveAll(templateDir)
+	}
+	os.Exit(code)
 }
 
 func copyTree(src, dst string) error {
